@@ -9,7 +9,7 @@ attribution) on every valuation of the fixed valuation sets.
 
 import json, signal
 import numpy
-from .. import core, terms as T, irspace, irtools, loopspace as LS
+from .. import core, terms as T, irspace, irtools, loopspace as LS, extraspace as XS
 
 LEVEL = 'exploration'
 RULE = ('every well-typed term of the stated profiles (alphabet of constructors x leaves x parameters, breadth-first by depth) '
@@ -44,6 +44,7 @@ def shards(tier, seed):
     n = len(LS.programs(tier))
     for lo in range(0, n, LOOP_CHUNK):
         out.append({'kind': 'loops', 'lo': lo, 'hi': min(n, lo + LOOP_CHUNK)})
+    out += [{'kind': 'extra', 'lo': lo, 'hi': lo + 160} for lo in range(0, len(XS.terms(tier)), 160)]
     return out + irspace.shards(PROFILES[tier], NPARTS[tier])
 
 
@@ -220,6 +221,8 @@ def run_shard(spec, tier, seed):
     res = core.ShardResult()
     if spec.get('kind') == 'loops':
         terms = [t for fam, prog in LS.programs(tier)[spec['lo']:spec['hi']] for t in LS.flatten(prog)]
+    elif spec.get('kind') == 'extra':
+        terms = [t for fam, t in XS.terms(tier)[spec['lo']:spec['hi']]]
     else:
         terms = irspace.shard_terms(spec['profile'], spec['level'], spec['part'], spec['nparts'])
     term = None
@@ -241,7 +244,7 @@ def run_shard(spec, tier, seed):
         key, m = signature(term, fail)
         res.violation(key, '{} :: {} (minimal failing subterm {})'.format(T.show(term), fail[1], T.show(m)), {'term': T.to_json(m), 'context': T.to_json(term)})
     if spec.get('part', 0) == 0 and term is not None:
-        res.sample({'profile': spec['profile']['name'] if 'profile' in spec else 'loop grammar', 'level': spec.get('level'), 'example_term': T.show(term)})
+        res.sample({'profile': spec['profile']['name'] if 'profile' in spec else spec.get('kind'), 'level': spec.get('level'), 'example_term': T.show(term)})
     return res
 
 
